@@ -1,6 +1,7 @@
 (* GLUE 4, histories - a Select store with C11's premise (keys_unique), non-nil plan ids and submit times not
    before 1970 IS the plans table of the history "Create each plan, in store order" of coq/query's sqlite
-   model, so c15_search_exact_sqlite / running_always_found speak about it. *)
+   model, so c15_search_exact_sqlite / running_always_found speak about it (they also ask that every
+   State.Start / State.End be the zero time or fit int64 nanoseconds: Spec.op_representable). *)
 From Coq Require Import Lia Permutation.
 From Coercion.Base Require Import Plan.
 From Coercion.Select Require Rows Select PersistProofs.
@@ -20,7 +21,7 @@ Qed.
 
 Lemma create_row_of_plan p tb :
   SR.pid p <> 0%N -> ~ In (SR.pid p) (map QR.r_id tb) -> (0 <= p_submit p)%Z ->
-  QR.sq_create (row_of_plan p) tb = (tb ++ [row_of_plan p], true).
+  QR.sq_create (row_of_plan p) tb = (tb ++ [QR.sq_cols (row_of_plan p)], true).
 Proof.
   intros Hn Hi Hs. unfold QR.sq_create. cbn [QR.r_id row_of_plan].
   destruct (N.eqb (SR.pid p) 0) eqn:E; [apply N.eqb_eq in E; contradiction|].
@@ -53,6 +54,7 @@ Qed.
 (* Select's search, characterised by C15's published theorem on that history *)
 Lemma search_running_by_c15 s :
   SR.keys_unique s -> ~ In 0%N (map SR.pid s) -> Forall (fun p => (0 <= p_submit p)%Z) s ->
+  Forall Coercion.Query.Spec.op_representable (creates_of s) ->
   exists xs,
     QQ.sq_search running_filter (QR.sq_run (creates_of s)) = Some (map QQ.SItem xs ++ [QQ.SClose]) /\
     Permutation (map QQ.x_id xs) (SL.search_running s) /\
@@ -61,8 +63,8 @@ Lemma search_running_by_c15 s :
        exists id v, Coercion.Query.Spec.get (Coercion.Query.Spec.spec_run Coercion.Query.Spec.Sqlite (creates_of s)) id = Some v /\
                     Coercion.Query.Spec.matches running_filter id v /\ x = Coercion.Query.Spec.result_of (id, v)).
 Proof.
-  intros Hk H0 Hs.
-  destruct (proj2 (C15.c15_search_exact_sqlite (creates_of s) running_filter) eq_refl)
+  intros Hk H0 Hs Hrep.
+  destruct (proj2 (C15.c15_search_exact_sqlite (creates_of s) running_filter Hrep) eq_refl)
     as (xs & Hx & Hn & Hd & Hi & _).
   exists xs. split; [exact Hx|]. split; [|split; [exact Hn|split; [exact Hd|exact Hi]]].
   rewrite (table_is_history s Hk H0 Hs) in Hx.
